@@ -14,7 +14,9 @@ From Soy Require Import Model.Bytes Model.Num Model.Values Model.Outcome Model.A
   Model.Escape Model.Interp Spec.Expr Spec.Cmd Spec.CmdIndep Proofs.ScopeRel Proofs.ScopeProofs Proofs.ScopeSpecProofs
   Proofs.ScopeIndepProofs Proofs.ScopeIndepBridge
   Model.Token Model.Parser Model.Compile Spec.CallNames Proofs.CompilePermProofs Proofs.ScopeNames Proofs.ScopeRegistry
-  Model.RawText Spec.Text Spec.CmdText Proofs.ScopeText Proofs.ScopeCmdLemmas Proofs.ScopeNsOnce.
+  Model.RawText Spec.Text Spec.CmdText Proofs.ScopeText Proofs.ScopeCmdLemmas Proofs.ScopeNsOnce
+  Model.ExprParser Model.RefView Proofs.ScopeExprWf Proofs.ScopeParseShape Proofs.ScopeParseWf Proofs.ScopeCompileWf.
+From Soy Require Model.Checker.
 Open Scope N_scope.
 
 (* ------------------------------------------------------------------ *)
@@ -379,6 +381,180 @@ Theorem plural_default : forall l entry md en mp i dflt cs n,
   plural_spec l entry md en mp i dflt cs n = l_exec l entry en md (NMsg mp 0 [] [] dflt) n.
 Proof. exact ScopeCmdLemmas.plural_default. Qed.
 Print Assumptions plural_explicit_case.
+
+(* ------------------------------------------------------------------ *)
+(* wf_registry, the hypothesis of exec_impl_spec, as a THEOREM about parse + check.
+
+   Chain: (1) every tree the expression parser returns is an expression; (2) every tree the command
+   parser returns has the parser's shape [pwf] (ScopeParseShape.v: blocks where blocks belong, IfCond /
+   SwitchCase / param / msg-item nodes in their positions, expressions in expression positions), and
+   every NCall below the root carries a written name resolved against the namespace and aliases in
+   force at the call; (3) CheckDataRefs (Model/Checker.v) rejects every template in which a let is
+   the only child of a non-block parent -- what a {let} written directly inside {msg} parses to;
+   (4) [pwf] + accepted + [file_grammar] = Spec/Cmd.v's [wf].
+
+   [file_grammar] is the ONE thing neither the parser nor the checker enforces (refuted below):
+   inside a template, {namespace} / {template} / a soydoc comment, and a {plural} nested in a
+   {param} / {let} / {log} inside a {msg}, are ACCEPTED by parse.SoyFile and by Bundle.Compile
+   (robfig/soy renders `{template .x}A{template .y}B{/template}C{/template}` as "ABC", and fails at
+   render time with "unknown node: *ast.MsgPluralNode" / "*ast.SoyDocNode" on the others).  The
+   property's grammar has none of these. *)
+
+Theorem expression_parser_returns_expressions : forall fuel prec st n st',
+  parse_expr fuel prec st = POk n st' -> wf KExpr n = true.
+Proof. exact parse_expr_wf. Qed.
+Print Assumptions expression_parser_returns_expressions.
+
+(* itemList at every budget, from every parser state, over ANY expression parser that returns expressions:
+   the state's (namespace, aliases) only moves up, the tree is a block of the parser's shape, and every call
+   below it is resolved between [lo] and the final state, whatever the state does afterwards *)
+Theorem parser_tree_shape : forall inlen lexq unq pexpr efuel,
+  (forall f prec p n p', pexpr f prec p = POk n p' -> wf KExpr n = true) ->
+  forall fuel lo unt s, nle lo (st s) ->
+  stepr s (nodeP PBlock lo) (item_list inlen lexq unq pexpr efuel fuel unt s).
+Proof. exact item_list_shape. Qed.
+Print Assumptions parser_tree_shape.
+
+(* parse.SoyFile: every NCall below the root of a parsed file is a written, non-empty name resolved
+   (Spec/CallNames.v) against a (namespace, aliases) between the empty start state and the final one:
+   the namespace is "" or the file's (written once), the aliases are a suffix of the final list *)
+Theorem parsed_calls_resolved : forall inlen lexq unq ts n p,
+  po_result (soy_file inlen lexq unq ts) = POk n p ->
+  pwf PBlock n = true /\ exists hi, Forall (resolved_in ([], []) hi) (calls_of n).
+Proof. exact soy_file_shape. Qed.
+Print Assumptions parsed_calls_resolved.
+
+(* ... and below a {template} read under the namespace ns: against ns itself *)
+Theorem template_calls_resolved : forall inlen lexq unq fuel token s n s',
+  c_ns s <> [] ->
+  parse_template inlen unq (item_list inlen lexq unq parse_expr expr_fuel fuel) fuel token s = Parser.COk n s' ->
+  Forall (fun name => exists al written, al_ext (c_al s) al /\ al_ext al (c_al s') /\ written <> [] /\
+                                         resolves (c_ns s) al written name) (calls_of n).
+Proof. exact ScopeParseWf.template_calls_resolved. Qed.
+Print Assumptions template_calls_resolved.
+
+(* CheckDataRefs rejects (in every checker state) a template whose view holds a let as the only child
+   of a non-block parent: the let can never be used *)
+Theorem let_in_msg_rejected : forall templates params t,
+  rt_bad t = true -> forall st0, exists r, Checker.chk templates params t st0 = Checker.CR r.
+Proof. exact bad_rejected. Qed.
+Print Assumptions let_in_msg_rejected.
+
+(* FULL statement: parsed files on which Registry.Add and CheckDataRefs succeed give a wf registry.
+   FALSE of the faithful model (next theorem); proved under [file_grammar]. *)
+Theorem compiled_registry_wf_partial : forall fs ts,
+  (forall f, In f fs -> parsed_file f) ->
+  (forall f, In f fs -> file_grammar f = true) ->
+  Checker.add_files [] fs = Checker.AddOk ts -> Checker.compile_check fs = Checker.Accept ->
+  wf_registry (Checker.registry_of ts fs) = true.
+Proof. exact compiled_registry_wf_parsed. Qed.
+Print Assumptions compiled_registry_wf_partial.
+
+(* {namespace a}{template .x}A{template .y}B{/template}C{/template} *)
+Definition ex_tk (ty : N) (v : bstr) : tok := {| t_typ := ty; t_pos := 0; t_val := v |}.
+Definition ex_nested_tokens : list tok := Eval vm_compute in
+  [ex_tk Tables.pit_LeftDelim []; ex_tk Tables.pit_Namespace []; ex_tk Tables.pit_Ident (b "a"); ex_tk Tables.pit_RightDelim [];
+   ex_tk Tables.pit_LeftDelim []; ex_tk Tables.pit_Template []; ex_tk Tables.pit_DotIdent (b ".x"); ex_tk Tables.pit_RightDelim [];
+   ex_tk Tables.pit_Text (b "A");
+   ex_tk Tables.pit_LeftDelim []; ex_tk Tables.pit_Template []; ex_tk Tables.pit_DotIdent (b ".y"); ex_tk Tables.pit_RightDelim [];
+   ex_tk Tables.pit_Text (b "B");
+   ex_tk Tables.pit_LeftDelim []; ex_tk Tables.pit_TemplateEnd []; ex_tk Tables.pit_RightDelim [];
+   ex_tk Tables.pit_Text (b "C");
+   ex_tk Tables.pit_LeftDelim []; ex_tk Tables.pit_TemplateEnd []; ex_tk Tables.pit_RightDelim [];
+   ex_tk Tables.pit_EOF []].
+Definition ex_body_of (ts : list tok) : list node :=
+  match po_result (soy_file 100 (fun _ => []) (fun _ => None) ts) with POk (NList _ l) _ => l | _ => [] end.
+Definition ex_nested_body : list node := Eval vm_compute in ex_body_of ex_nested_tokens.
+Definition ex_nested_file : soyfile := {| sf_name := b "n.soy"; sf_text := []; sf_body := ex_nested_body |}.
+
+Theorem compiled_registry_wf_refuted : exists fs ts,
+  (forall f, In f fs -> parsed_file f) /\
+  Checker.add_files [] fs = Checker.AddOk ts /\ Checker.compile_check fs = Checker.Accept /\
+  wf_registry (Checker.registry_of ts fs) = false.
+Proof.
+  exists [ex_nested_file]. eexists. split.
+  - intros f [<-|[]]. exists 100, (fun _ => []), (fun _ => None), ex_nested_tokens. do 2 eexists. vm_compute. reflexivity.
+  - split; [vm_compute; reflexivity|]. split; vm_compute; reflexivity.
+Qed.
+Print Assumptions compiled_registry_wf_refuted.
+
+(* exec_impl_spec's hypothesis discharged for compiled bundles of the property's grammar *)
+Theorem C02_compiled_bundle_renders_spec_partial : forall cf fs ts fuel name data_id data first_id,
+  (forall f, In f fs -> parsed_file f) ->
+  (forall f, In f fs -> file_grammar f = true) ->
+  Checker.add_files [] fs = Checker.AddOk ts -> Checker.compile_check fs = Checker.Accept ->
+  c_reg cf = Checker.registry_of ts fs ->
+  let r := render cf fuel name data_id data None None first_id in
+  let s := render_spec cf fuel name data first_id in
+  concat_b (rr_writes r) = sr_out s /\ outcome_agrees (rr_outcome r) (sr_outcome s).
+Proof.
+  intros cf fs ts fuel name data_id data first_id Hp Hg Ha Hc Hr. apply exec_impl_spec_lemma.
+  rewrite Hr. exact (compiled_registry_wf_parsed fs ts Hp Hg Ha Hc).
+Qed.
+Print Assumptions C02_compiled_bundle_renders_spec_partial.
+
+(* the same for Model/Compile.v's [compile] -- C13's model of the whole of Bundle.Compile (Registry.Add per parsed
+   file, CheckDataRefs with ANY order of MapLiteralNode.Children, SetGlobals, ProcessMessages), the model
+   registry_lookup_exact speaks about.  FULL statement (without sfile_grammar): false, same witness. *)
+Theorem compile_registry_wf_partial : forall node_string o gl srcs cp,
+  compile node_string o gl srcs = COk cp ->
+  (forall f, In (SrcOk f) srcs -> parsed_sfile f) ->
+  (forall f, In (SrcOk f) srcs -> sfile_grammar f = true) ->
+  wf_registry (cp_reg cp) = true.
+Proof. exact compile_registry_wf. Qed.
+Print Assumptions compile_registry_wf_partial.
+
+Theorem C02_compile_renders_spec_partial : forall node_string o gl srcs cp cf fuel name data_id data first_id,
+  compile node_string o gl srcs = COk cp ->
+  (forall f, In (SrcOk f) srcs -> parsed_sfile f) ->
+  (forall f, In (SrcOk f) srcs -> sfile_grammar f = true) ->
+  c_reg cf = cp_reg cp ->
+  let r := render cf fuel name data_id data None None first_id in
+  let s := render_spec cf fuel name data first_id in
+  concat_b (rr_writes r) = sr_out s /\ outcome_agrees (rr_outcome r) (sr_outcome s).
+Proof.
+  intros ns o gl srcs cp cf fuel name data_id data first_id Hc Hp Hg Hr. apply exec_impl_spec_lemma.
+  rewrite Hr. exact (compile_registry_wf ns o gl srcs cp Hc Hp Hg).
+Qed.
+Print Assumptions C02_compile_renders_spec_partial.
+
+(* non-vacuity: {namespace a}{template .x}A{call .y /}{/template}{template .y}B{/template} is a parsed file of the
+   grammar that compiles; its call is resolved to a.y *)
+Definition ex_call_tokens : list tok := Eval vm_compute in
+  [ex_tk Tables.pit_LeftDelim []; ex_tk Tables.pit_Namespace []; ex_tk Tables.pit_Ident (b "a"); ex_tk Tables.pit_RightDelim [];
+   ex_tk Tables.pit_LeftDelim []; ex_tk Tables.pit_Template []; ex_tk Tables.pit_DotIdent (b ".x"); ex_tk Tables.pit_RightDelim [];
+   ex_tk Tables.pit_Text (b "A");
+   ex_tk Tables.pit_LeftDelim []; ex_tk Tables.pit_Call []; ex_tk Tables.pit_DotIdent (b ".y"); ex_tk Tables.pit_RightDelimEnd [];
+   ex_tk Tables.pit_LeftDelim []; ex_tk Tables.pit_TemplateEnd []; ex_tk Tables.pit_RightDelim [];
+   ex_tk Tables.pit_LeftDelim []; ex_tk Tables.pit_Template []; ex_tk Tables.pit_DotIdent (b ".y"); ex_tk Tables.pit_RightDelim [];
+   ex_tk Tables.pit_Text (b "B");
+   ex_tk Tables.pit_LeftDelim []; ex_tk Tables.pit_TemplateEnd []; ex_tk Tables.pit_RightDelim [];
+   ex_tk Tables.pit_EOF []].
+Definition ex_call_body : list node := Eval vm_compute in ex_body_of ex_call_tokens.
+Definition ex_call_file : soyfile := {| sf_name := b "c.soy"; sf_text := []; sf_body := ex_call_body |}.
+Example C02_example_compiled : exists ts,
+  parsed_file ex_call_file /\ file_grammar ex_call_file = true /\
+  Checker.add_files [] [ex_call_file] = Checker.AddOk ts /\ Checker.compile_check [ex_call_file] = Checker.Accept /\
+  flat_map calls_of (sf_body ex_call_file) = [b "a.y"].
+Proof.
+  eexists. split.
+  - exists 100, (fun _ => []), (fun _ => None), ex_call_tokens. do 2 eexists. vm_compute. reflexivity.
+  - repeat split; vm_compute; reflexivity.
+Qed.
+Definition ex_orders : orders := {| o_globals := fun l => l; o_children := fun l => l; o_ph := fun l => l; o_imports := fun l => l |}.
+Definition ex_call_sfile : sfile := {| sfile_name := b "c.soy"; sfile_text := []; sfile_body := ex_call_body |}.
+Example C02_example_compile : exists cp,
+  compile (fun _ => []) ex_orders [] [SrcOk ex_call_sfile] = COk cp /\
+  parsed_sfile ex_call_sfile /\ sfile_grammar ex_call_sfile = true /\ length (r_templates (cp_reg cp)) = 2%nat.
+Proof.
+  eexists. split; [vm_compute; reflexivity|]. split.
+  - exists 100, (fun _ => []), (fun _ => None), ex_call_tokens. do 2 eexists. vm_compute. reflexivity.
+  - split; vm_compute; reflexivity.
+Qed.
+(* ... and a let directly inside a msg is what [rt_bad] detects *)
+Example C02_example_let_in_msg :
+  rt_bad (view (NMsg 0 0 [] [] [NMsgPlaceholder 0 [] (NLetValue 0 (b "x") (NInt 0 1))])) = true.
+Proof. reflexivity. Qed.
 
 (* ------------------------------------------------------------------ *)
 (* non-vacuity: a bundle with a let that shadows a param inside an {if},
